@@ -49,7 +49,7 @@ struct Runner {
     using Buf = tulz::RingBuffer<T, OW>;
     using Other = tulz::RingBuffer<T, !OW>;
     using E = Elem<T>;
-    static constexpr bool kTracked = std::is_same_v<T, Tracked>;
+    static constexpr bool kTracked = std::is_base_of_v<Tracked, T>;
     static constexpr bool kString = std::is_same_v<T, std::string>;
 
     struct Slot {
@@ -235,7 +235,7 @@ struct Runner {
         note(x, x.m.size() == x.cap ? "push_back-overwrite" : "push_back");
         log(std::string(emplace ? "eb#" : "pb#") + std::to_string(i) + "(" + std::to_string(v) + ")");
         T *r;
-        if (emplace) { if constexpr (kTracked) r = &x.b->emplace_back(v); else r = &x.b->emplace_back(E::make(v)); }
+        if (emplace) { if constexpr (kTracked) r = &x.b->emplace_back((int64_t) v); else r = &x.b->emplace_back(E::make(v)); }
         else { T tmp = E::make(v); r = &x.b->push_back(tmp); }
         if (x.m.size() == x.cap) x.m.pop_front();
         x.m.push_back(v);
@@ -247,7 +247,7 @@ struct Runner {
         note(x, x.m.size() == x.cap ? "push_front-overwrite" : "push_front");
         log(std::string(emplace ? "ef#" : "pf#") + std::to_string(i) + "(" + std::to_string(v) + ")");
         T *r;
-        if (emplace) { if constexpr (kTracked) r = &x.b->emplace_front(v); else r = &x.b->emplace_front(E::make(v)); }
+        if (emplace) { if constexpr (kTracked) r = &x.b->emplace_front((int64_t) v); else r = &x.b->emplace_front(E::make(v)); }
         else { T tmp = E::make(v); r = &x.b->push_front(tmp); }
         if (x.m.size() == x.cap) x.m.pop_back();
         x.m.push_front(v);
@@ -492,7 +492,7 @@ int main(int argc, char **argv) {
     bool life = rt::st().prop == "C09";
     LifeRegistry::get().prop = "C09";
     LifeRegistry::get().context = [] { return "history: " + (gHist.size() > 1500 ? "..." + gHist.substr(gHist.size() - 1500) : gHist); };
-    std::string types = rt::optStr("types", life ? "tracked" : "int,pod24,tracked,string");
+    std::string types = rt::optStr("types", life ? "tracked,tracked,tracked-throwing-move" : "int,pod24,tracked,tracked-throwing-move,string");
     std::vector<std::string> tl;
     for (size_t p = 0; p <= types.size();) {
         size_t q = types.find(',', p);
@@ -516,6 +516,7 @@ int main(int argc, char **argv) {
         if (t == "int") RUN(int);
         else if (t == "pod24") RUN(Pod24);
         else if (t == "tracked") RUN(Tracked);
+        else if (t == "tracked-throwing-move") RUN(rt::TrackedThrowingMove);
         else if (t == "string") { if (ow) runCase<std::string, true>(s, steps, life, false); else runCase<std::string, false>(s, steps, life, false); }
 #undef RUN
     }
